@@ -13,6 +13,13 @@
 #define VERIF_HOOKS_H
 #include <stdint.h>
 #include <stddef.h>
+#ifdef VERIF_NO_FUTEX
+/* the configuration of a platform without a futex system call: urcu/futex.h takes its generic branch (compat_futex_noasync: mutex + condition variable;
+   compat_futex_async: polling) */
+#include <sys/syscall.h>
+#undef __NR_futex
+#undef SYS_futex
+#endif
 extern void vh_mb(void);
 #define cmm_smp_mb() vh_mb()
 #include <urcu/arch.h>
